@@ -231,6 +231,16 @@ def decorated(sh, salt, sid):
     return model.MT(sid, toks, root)
 
 
+def nbsp_corpus():
+    """Words with a no-break space / ideographic space inside: one token for the bracket lexer (ASCII
+    whitespace separates), not representable in export (fields are split on any whitespace)."""
+    m = decorated(((1, 2), 3), 5, sid=1)
+    toks = [dict(t) for t in m.toks]
+    toks[0]['word'] = u'10\u00a0000'
+    toks[2]['word'] = u'x\u3000y'
+    return [model.MT(1, toks, m.root)]
+
+
 def corpora(tier):
     P = pool()
     out = [[m] for m in P]
@@ -530,7 +540,8 @@ def run_chunk(chunk):
             layouts = {'export': EXPORT_LAYOUTS, 'brackets': BRACKET_LAYOUTS, 'discobrackets': DISCO_LAYOUTS,
                        'tigerxml': TIGER_LAYOUTS}[fmt]
             corp = None
-            for corp in corpora(chunk['tier'])[chunk['lo']:chunk['hi']]:
+            extra = [nbsp_corpus()] if (fmt in ('brackets', 'discobrackets') and chunk['lo'] == 0) else []
+            for corp in extra + corpora(chunk['tier'])[chunk['lo']:chunk['hi']]:
                 if fmt == 'brackets' and any(model.mt_tree_gap_degree(m.root) > 0 for m in corp):
                     continue
                 js = [m.to_json() for m in corp]
